@@ -45,7 +45,7 @@ impl Decoder for WithLengthBytesCodec {
         } else {
             let mut bytes = src.as_ref();
             let len = bytes.get_u64() as usize;
-            if src.remaining() >= LEN_SIZE + len {
+            if src.remaining() - LEN_SIZE >= len {
                 src.advance(LEN_SIZE);
                 Ok(Some(src.split_to(len)))
             } else {
@@ -90,4 +90,31 @@ pub fn consume_bounded<D: Decoder>(
         src.unsplit(rem);
     }
     (consumed, decode_result)
+}
+
+#[cfg(test)]
+mod tests {
+    use super::WithLengthBytesCodec;
+    use bytes::{BufMut, BytesMut};
+    use tokio_util::codec::Decoder;
+
+    #[test]
+    fn decode_with_length() {
+        let mut buffer = BytesMut::new();
+        buffer.put_u64(3);
+        buffer.put_slice(b"abcd");
+        let result = WithLengthBytesCodec.decode(&mut buffer);
+        assert!(matches!(result, Ok(Some(body)) if body.as_ref() == b"abc"));
+        assert_eq!(buffer.as_ref(), b"d");
+    }
+
+    #[test]
+    fn decode_oversize_length() {
+        let mut buffer = BytesMut::new();
+        buffer.put_u64(u64::MAX);
+        buffer.put_slice(b"abcd");
+        let result = WithLengthBytesCodec.decode(&mut buffer);
+        assert!(matches!(result, Ok(None)));
+        assert_eq!(buffer.len(), 12);
+    }
 }
